@@ -8,7 +8,14 @@ use std::io::Write;
 use vharness::walk::*;
 use vharness::{for_each_case, guarded, install_panic_capture, limbs_json, Report};
 
-fn amd64_val(v: i64) -> u64 { if (v - 1073741824).abs() <= 16 { (0x0000_8000_0000_0000i64 + (v - 1073741824)) as u64 } else { v as u64 } }
+/// The model's small integers as real amd64 values: the value NC stands for the non-canonical hole, and everything inside the module
+/// without symbols (M2) is mapped into the upper canonical half (0xffff8000_00000000 and above), where kernels and some systems' libraries live.
+const AMD64_HI: u64 = 0xffff_8000_0000_0000;
+fn amd64_val(v: i64) -> u64 {
+    if (v - 1073741824).abs() <= 16 { (0x0000_8000_0000_0000i64 + (v - 1073741824)) as u64 }
+    else if (0x500000..0x501000 + 256).contains(&v) { v as u64 + AMD64_HI }
+    else { v as u64 }
+}
 
 fn amd64_symbols(rule: &str) -> String {
     let cfi = match rule {
@@ -51,7 +58,7 @@ fn main() {
         symbols.insert("m1".to_string(), amd64_symbols(c["rule"].as_str().unwrap()));
         let built = !c["expect"].as_array().unwrap().is_empty();
         let inp = WalkInput { arch: spec.arch, os, regs, valid: Some(valid), stack_base: 0x10000, stack_bytes: words_to_bytes(&words, spec.word),
-                              modules: vec![("m1".into(), 0x400000, 0x1000), ("m2".into(), 0x500000, 0x1000)], symbols, track: spec.track.clone(), frame_cap: words.len() * spec.word + 3 };
+                              modules: vec![("m1".into(), 0x400000, 0x1000), ("m2".into(), 0x500000 + AMD64_HI, 0x1000)], symbols, track: spec.track.clone(), frame_cap: words.len() * spec.word + 3 };
         let obs = guarded(|| run_walk(&inp));
         rep.evaluations += 1;
         // exact comparison with the model's frames
@@ -304,14 +311,17 @@ fn mips(archname: &str, path: &str, tracepath: &str) {
         let f0 = &c["frames"][0];
         let ctx_ip = f0["ip"].as_u64().unwrap();
         let regs = vec![("pc".to_string(), ctx_ip), ("sp".to_string(), f0["sp"].as_u64().unwrap()), ("fp".to_string(), f0["fp"].as_u64().unwrap()),
-                        ("ra".to_string(), f0["ra"].as_u64().unwrap()), ("s0".to_string(), f0["cs"].as_u64().unwrap())];
-        let valid: Vec<String> = f0["valid"].as_array().unwrap().iter().map(|v| match v.as_str().unwrap() { "cs" => "s0".to_string(), o => o.to_string() }).collect();
+                        ("ra".to_string(), f0["ra"].as_u64().unwrap()), ("s0".to_string(), f0["cs"].as_u64().unwrap()),
+                        // $gp is callee-saved like $s0: the model's one callee-saved register stands for both
+                        ("gp".to_string(), f0["cs"].as_u64().unwrap() + 1000)];
+        let mut valid: Vec<String> = f0["valid"].as_array().unwrap().iter().map(|v| match v.as_str().unwrap() { "cs" => "s0".to_string(), o => o.to_string() }).collect();
+        if valid.iter().any(|v| v == "s0") { valid.push("gp".to_string()); }
         let mut symbols = HashMap::new();
         symbols.insert("m1".to_string(), format!("MODULE Linux mips 000 m1\nFUNC 100 100 0 f1\nFUNC 300 100 0 f2\nFUNC 500 100 0 f3\nSTACK CFI INIT 100 100 {}\nSTACK CFI INIT 500 100 {}\n",
                                                  cfi(c["rule"].as_str().unwrap()), cfi("cfaonly")));
         let built = !c["expect"].as_array().unwrap().is_empty();
         let inp = WalkInput { arch: spec.arch, os: Os::Linux, regs, valid: Some(valid), stack_base: 0x10000, stack_bytes: words_to_bytes(&words, spec.word),
-                              modules: vec![("m1".into(), 0x400000, 0x1000), ("m2".into(), 0x500000, 0x1000)], symbols, track: vec!["fp", "ra", "s0"], frame_cap: words.len() * spec.word + 3 };
+                              modules: vec![("m1".into(), 0x400000, 0x1000), ("m2".into(), 0x500000, 0x1000)], symbols, track: vec!["fp", "ra", "s0", "gp"], frame_cap: words.len() * spec.word + 3 };
         let obs = guarded(|| run_walk(&inp));
         rep.evaluations += 1;
         let model = c["frames"].as_array().unwrap();
@@ -333,6 +343,8 @@ fn mips(archname: &str, path: &str, tracepath: &str) {
                     else if r.regs["fp"].is_some() && r.regs["fp"] != m["fp"].as_u64() { diff = Some("fp-value".into()); }
                     else if r.regs["s0"].is_some() != mvalid.contains(&"cs") { diff = Some("callee-saved-validity".into()); }
                     else if r.regs["s0"].is_some() && r.regs["s0"] != m["cs"].as_u64() { diff = Some("callee-saved-value".into()); }
+                    else if r.regs["gp"].is_some() != mvalid.contains(&"cs") { diff = Some("callee-saved-validity".into()); }
+                    else if r.regs["gp"].is_some() && r.regs["gp"] != m["cs"].as_u64().map(|x| x + 1000) { diff = Some("callee-saved-value".into()); }
                     else if r.regs["ra"].is_some() != mvalid.contains(&"ra") { diff = Some("ra-validity".into()); }
                     rep.class(&format!("frame:{}", r.trust));
                 }
